@@ -15,6 +15,8 @@ pub struct WrapDb<'a> {
     pub inner: &'a ChalkDatabase,
     pub calls: Cell<u64>,
     pub panic_at: Cell<Option<u64>>,
+    /// emit one `DbCall` event per callback into the verif sink (to locate crash points)
+    pub log_calls: Cell<bool>,
 }
 
 /// Payload of an injected panic.
@@ -26,11 +28,17 @@ impl<'a> WrapDb<'a> {
             inner,
             calls: Cell::new(0),
             panic_at: Cell::new(None),
+            log_calls: Cell::new(false),
         }
     }
     fn tick(&self, _what: &str) {
         let n = self.calls.get() + 1;
         self.calls.set(n);
+        if self.log_calls.get() {
+            chalk_ir::verif::emit("DbCall", |f| {
+                f.int("call", n as usize).str("what", _what);
+            });
+        }
         if self.panic_at.get() == Some(n) {
             self.panic_at.set(None);
             chalk_ir::verif::emit("Panic", |f| {
